@@ -855,6 +855,45 @@ PROPS["C10"]["kinds"].append(dict(name="cfgload", gen=cfgload_gen, oracle=cfgloa
                                   nontrivial=lambda l, r: r in ("started", "rejected"),
                                   classify=lambda l, r: ("unk/" if " unk=1 " in l else "tags/") + r))
 PROPS["C10"]["need_binary"] = True
+
+
+def startrace_gen(rng, tier):
+    """clients that are already sending (udp + tcp) while run() executes, domain sets that take a while to load
+    (B=<n> bulk entries per set): every response RECEIVED must be the one the rules demand (seed C10-K: listeners
+    started before the domain sets and rules were in place answered REFUSED / from an incomplete rule list)"""
+    out = []
+    for i in range(budget(tier, 3, 12)):
+        setname = [b"blocked%d" % i, b"example", b"com"]
+        sets = [[("d", setname)]]
+        rules = [(0, 0, 3, "-"), ("-", 0, 0, 0)]
+        spec = cfg_spec(("u", 0, sets, rules)) + ";B=%d;X=%d" % (rng.choice([120000, 200000, 300000]), 9000 + i)
+        fname = gens.raw_name([b"sr%d" % i, rng.choice(VOCAB), b"test"])
+        fq = fname + b"\0" + struct.pack(">HH", 1, 1)
+        rq = gens.raw_name([b"www"] + setname) + b"\0" + struct.pack(">HH", 1, 1)
+        reply = struct.pack(">HHHHHH", 0, 0x8180, 1, 1, 0, 0) + fq + b"\xc0\x0c" + struct.pack(">HHIH", 1, 1, 60, 4) + bytes([10, 0, 0, 7])
+        hdr = struct.pack(">HHHHHH", 0, 0x0100, 1, 0, 0, 0)
+        out.append("sr%d cfg=%s qf=%s qr=%s up=reply:%s" % (i, spec, gens.hx(hdr + fq), gens.hx(hdr + rq), gens.hx(reply)))
+    return out
+
+
+def startrace_oracle(line, res):
+    f = gens.fields(res)
+    if not res.startswith("n="):
+        return None
+    fw, fg = (int(x) for x in f["fwd"].split(":"))
+    rj, rg = (int(x) for x in f["rej"].split(":"))
+    if f.get("bad", "-") != "-" or fw != fg or rj != rg:
+        return ("a listener answered while run() was still starting and the response is not what the rules demand: "
+                "%d of %d forwarded-rule and %d of %d reject-rule responses right, first deviating response %s"
+                % (fg, fw, rg, rj, f.get("bad", "-")[:80]))
+    return None
+
+
+PROPS["C10"]["kinds"].append(dict(name="startrace", gen=startrace_gen, oracle=startrace_oracle, model=False, timeout=300,
+                                  shards=1, nontrivial=lambda l, r: r.startswith("n=") and not r.startswith("n=0 "),
+                                  classify=lambda l, r: "early" if " early=0 " not in r else "after-start"))
+PROPS["C10"]["rule"] += ("; startrace: udp and tcp clients already sending while run() loads slow domain sets: every response "
+                         "received is the one the rules demand (oracle only)")
 PROPS["C10"]["rule"] += ("; cfgload: generated YAML configurations (duplicate / empty / unknown upstream and domain-set tags, missing "
                          "addresses, an unknown key injected at top level, nested, or inside a server / upstream / set / rule / "
                          "limiter entry) through the REAL binary: it must start exactly when the model's loader accepts and the "
